@@ -16,7 +16,7 @@ for d in seeded/*/; do
     elif git apply --3way /verif/$d/patch.diff >/dev/null 2>&1; then git reset -q
     else out="$out\"$c\": \"patch does not apply\","; git checkout -q -- . ; git reset -q --hard; cd /verif; continue; fi
     cd /verif
-    timeout 1500 ./check $c --tier quick > /tmp/matrix_${id}_$c.log 2>&1; rc=$?
+    mkdir -p /verif/build/seed_evidence; VERIF_EVIDENCE_DIR=/verif/build/seed_evidence timeout 1500 ./check $c --tier quick > /tmp/matrix_${id}_$c.log 2>&1; rc=$?
     cls=$(grep -E "^  class " /tmp/matrix_${id}_$c.log | sed -E 's/^  class ([^ ]+) .*/\1/' | tr '\n' ' ')
     git -C /repo checkout -q -- .
     out="$out\"$c\": {\"exit\": $rc, \"classes\": \"$cls\"},"
